@@ -35,7 +35,8 @@ def showOpt {α} (f : α → String) : Option α → String
   | none => "ovf"
   | some a => "ok " ++ f a
 
+/-- whitespace-separated tokens; tokens starting with '#' are annotations for the checker -/
 def words (line : String) : List String :=
-  (line.trimAscii.toString.splitOn " ").filter (fun w => w ≠ "")
+  (line.trimAscii.toString.splitOn " ").filter (fun w => w ≠ "" && !w.startsWith "#")
 
 end Statime
